@@ -53,6 +53,12 @@ def generate(tier, rng):
             if form == 'named':
                 tv.fnames, tv.fdw = ['inner'], [None]
             e.variants = others(n)[:3] + [tv]
+            # a transparent variant may also carry to_string / serialize (they give EnumString a spelling); the string
+            # derives must still forward to the inner value
+            if form == 'named':
+                tv.ts = 'wrapped-%s' % ty.lower()
+            elif ty in ('u32', 'Inner'):
+                tv.ser = ['w1', 'wrapped-long-%s' % ty.lower()]
             e.cis = False  # const_into_str cannot call the inner From impl in a const fn (rustc E0015); outside C11
             e.extra['shape'] = 'transparent/%s/%s' % (form, ty)
     # default and transparent in one enum
